@@ -1,4 +1,6 @@
 import PewProofs.FastParse
+import PewProofs.FastParsePos
+import PewProofs.FastParseText
 
 /-! # C17 — property theorems (statements only depend on `PewModel.FastParse`) -/
 namespace Pew.FastParse
@@ -27,16 +29,19 @@ def exampleDoc : Doc :=
 /-- the fast parser and the XML parser build the same model.  For EVERY document of the layout
 (`Layout`: any number ≥ 1 of spectra in any order, extra cv/user/ref lines everywhere, noise sections,
 TIC present or absent, image size present or absent, any declared binary types, either order of the
-settings and group lists), every assignment of line lengths, and every callback that returned True
-whenever it was invoked: the nested line loops return a model, the tree queries return a model, and
-the two are equal — image size, pixel size, both array groups (id, type, external flag) and for every
-spectrum position, TIC, offsets and lengths.  `cls` is the value class of the regular expression;
-`Layout cls` demands that the values the parsers read are in it (`valuesAccepted`). -/
+settings and group lists, attribute texts without entity references), every assignment of line
+lengths, and every callback that returned True whenever it was invoked: the nested line loops over
+the raw text return a model, the tree queries over the decoded document (`xmlDoc d`: what ElementTree
+hands over after resolving entity and character references) return a model, and the two are equal —
+image size, pixel size, both array groups (id, type, external flag) and for every spectrum position,
+TIC, offsets and lengths.  `cls` is the value class of the regular expression; `Layout cls` demands
+that the values the parsers read are in it (`valuesAccepted`). -/
 theorem fast_eq_xml (cls : String → Bool) (d : Doc) (h : Layout cls d) (cb : Nat → Bool)
     (ls : List (Line × Nat)) (hls : ls.map Prod.fst = render cls d)
     (hcb : ∀ p ∈ (run cb ls).calls, cb p = true) :
-    ∃ m, fastParse cb ls = .ok m ∧ xmlView d = some m := by
-  obtain ⟨m, hm1, hm2⟩ := core_eq_xml cls d h
+    ∃ m, fastParse cb ls = .ok m ∧ xmlView (xmlDoc d) = some m := by
+  obtain ⟨m, hm1, hm2⟩ := core_eq_xml cls d h.1
+  rw [xmlDoc_id d h.2]
   refine ⟨m, ?_, hm2⟩
   have hinv := runS_cbInv cb ls St.init (init_cbInv cb)
   have hab : (run cb ls).aborted = false := by
@@ -55,8 +60,41 @@ example : Layout clsAny exampleDoc := by decide +kernel
 /-- without a callback (`callback=None`) -/
 theorem fast_eq_xml_no_callback (cls : String → Bool) (d : Doc) (h : Layout cls d)
     (ls : List (Line × Nat)) (hls : ls.map Prod.fst = render cls d) :
-    ∃ m, fastParse (fun _ => true) ls = .ok m ∧ xmlView d = some m :=
+    ∃ m, fastParse (fun _ => true) ls = .ok m ∧ xmlView (xmlDoc d) = some m :=
   fast_eq_xml cls d h _ ls hls (fun _ _ => rfl)
+
+/-- a document whose attribute texts are plain (`TextOk`, the last conjunct of `Layout`) is the
+document the XML parser sees: decoding entity and character references changes nothing -/
+theorem plain_text_is_decoded_text (d : Doc) (h : TextOk d) : xmlDoc d = d := xmlDoc_id d h
+
+example : TextOk exampleDoc := by decide +kernel
+
+/-- the example document with the x position of the second spectrum written `&#49;` and the first
+array reference written `mz&#65;rray` -/
+def entityDoc : Doc :=
+  { exampleDoc with
+    spectra := [{ items := [.ref "spectrum", .cv "MS:1000285" (some "1.500000e+06")], scanlist := [.cv "MS:1000795" none],
+                  scans := [[.cv "IMS:1000050" (some "2"), .cv "IMS:1000051" (some "1"), .misc], [.misc]],
+                  arrays := [{ items := [.ref "mz&#65;rray", .cv "IMS:1000104" (some "8"), .cv "IMS:1000102" (some "16"), .misc] },
+                             { items := [.cv "IMS:1000102" (some "24"), .ref "intensities", .cv "IMS:1000104" (some "16")] }],
+                  tail := [] },
+                { items := [], scanlist := [],
+                  scans := [[.cv "IMS:1000051" (some "1"), .cv "IMS:1000050" (some "&#x31;")]],
+                  arrays := [{ items := [.ref "intensities", .cv "IMS:1000104" (some "8"), .cv "IMS:1000102" (some "48")] }],
+                  tail := [.cv "MS:1000285" (some "-3")] }] }
+
+/-- `TextOk` is the reason the layout excludes entity references: the document above satisfies the
+structural part of the layout and decodes (`xmlDoc`) to the example document; both parsers build a
+model, but the regular expression hands over the raw texts (`&#x31;` — on which `int()` then raises —
+and offsets keyed `mz&#65;rray`) while ElementTree hands over `1` and `mzArray` -/
+theorem entity_reference_diverges :
+    LayoutCore clsAny entityDoc ∧ ¬ TextOk entityDoc ∧ xmlDoc entityDoc = exampleDoc ∧
+    (fastParse (fun _ => true) ((render clsAny entityDoc).map (fun l => (l, 1)))).toOption.map
+        (fun m => m.spectra.map (fun s => (s.x, s.arrays.map (·.1))))
+      = some [("2", ["mz&#65;rray", "intensities"]), ("&#x31;", ["intensities"])] ∧
+    (xmlView (xmlDoc entityDoc)).map (fun m => m.spectra.map (fun s => (s.x, s.arrays.map (·.1))))
+      = some [("2", ["mzArray", "intensities"]), ("1", ["intensities"])] := by
+  refine ⟨by decide +kernel, by decide +kernel, by decide +kernel, by decide +kernel, by decide +kernel⟩
 
 theorem finishCore_ok (c : Core) (m : Model) (h : finishCore c = .ok m) : c.mode = .top ∧ c.spectra = m.spectra := by
   unfold finishCore at h
@@ -84,7 +122,7 @@ theorem callback_once_per_spectrum (cls : String → Bool) (d : Doc) (h : Layout
     (ls : List (Line × Nat)) (hls : ls.map Prod.fst = render cls d)
     (hcb : ∀ p ∈ (run cb ls).calls, cb p = true) :
     (run cb ls).calls.length = d.spectra.length := by
-  obtain ⟨m, hm1, hm2⟩ := core_eq_xml cls d h
+  obtain ⟨m, hm1, hm2⟩ := core_eq_xml cls d h.1
   have hinv := runS_cbInv cb ls St.init (init_cbInv cb)
   have hab : (run cb ls).aborted = false := by
     rcases hinv with ⟨ha, _⟩ | ⟨_, pre, p, hc, hp, _⟩
@@ -129,6 +167,110 @@ theorem callback_false_aborts (cb : Nat → Bool) (ls : List (Line × Nat)) :
 example : fastParse (fun p => p != 62) ((render clsAny exampleDoc).map (fun l => (l, 1))) = .error .aborted := by
   decide +kernel
 
+/-- the unit-length lines of the example document -/
+def exampleLines : List (Line × Nat) := (render clsAny exampleDoc).map (fun l => (l, 1))
+
+theorem exampleLines_fst : exampleLines.map Prod.fst = render clsAny exampleDoc := by
+  simp [exampleLines, List.map_map, Function.comp_def]
+
+/-- EXACT callback positions.  For every document of the layout, every assignment of (byte) lengths
+to its lines and every callback that returned True whenever it was invoked: the callback is invoked
+exactly once per spectrum, and invocation `k` receives the file offset just after line
+`callLine cls d k` — the `<spectrumList …>` line for the first spectrum (the main loop's
+`startswith("<spectrum")` matches it; the first `<spectrum …>` line is swallowed by `parse_spectrum`),
+the `<spectrum …>` line of spectrum `k` for every later one (`callback_call_lines`). -/
+theorem callback_positions_exact (cls : String → Bool) (d : Doc) (h : Layout cls d) (cb : Nat → Bool)
+    (ls : List (Line × Nat)) (hls : ls.map Prod.fst = render cls d)
+    (hcb : ∀ p ∈ (run cb ls).calls, cb p = true) :
+    (run cb ls).calls = callPositions cls d (ls.map Prod.snd) := by
+  have hinv := runS_cbInv cb ls St.init (init_cbInv cb)
+  have hab : (run cb ls).aborted = false := by
+    rcases hinv with ⟨ha, _⟩ | ⟨_, pre, p, hc, hp, _⟩
+    · exact ha
+    · have := hcb p (by rw [show (run cb ls).calls = pre ++ [p] from hc]; simp)
+      rw [hp] at this; exact absurd this (by simp)
+  have e : run cb ls = run (fun _ => true) ls := runS_eq_tt cb ls St.init hab
+  rw [e]
+  exact calls_tt cls d h.1 ls hls
+
+/-- on the example document with unit line lengths the two invocations happen after lines 32 and 61 -/
+example : callPositions clsAny exampleDoc (exampleLines.map Prod.snd) = [33, 62] := by decide +kernel
+example : (run (fun _ => true) exampleLines).calls = [33, 62] := by
+  rw [callback_positions_exact clsAny exampleDoc (by decide +kernel) _ exampleLines exampleLines_fst (fun _ _ => rfl)]
+  decide +kernel
+
+/-- the one-pass computation the driver evaluates for `callPositions` (running totals of the line lengths,
+indices accumulated spectrum by spectrum) is `callPositions`, for every document and every list of lengths -/
+theorem callPositionsFast_eq (cls : String → Bool) (d : Doc) (lens : List Nat) :
+    callPositionsFast cls d lens = callPositions cls d lens := callPositionsFast_eq' cls d lens
+
+example : callPositionsFast clsAny exampleDoc (exampleLines.map Prod.snd) = [33, 62] := by decide +kernel
+
+/-- ANY callback, also one that returns False: the positions it was invoked with are an initial
+segment of the exact positions.  With `callback_false_aborts` (the False invocation is the last one)
+an import aborted at invocation `j` made exactly the invocations `0 … j`, each at its exact position. -/
+theorem callback_positions_prefix (cls : String → Bool) (d : Doc) (h : Layout cls d) (cb : Nat → Bool)
+    (ls : List (Line × Nat)) (hls : ls.map Prod.fst = render cls d) :
+    (run cb ls).calls <+: callPositions cls d (ls.map Prod.snd) := by
+  rw [← calls_tt cls d h.1 ls hls]
+  exact runS_prefix_tt cb ls St.init rfl
+
+example : (run (fun p => p != 33) exampleLines).calls = [33] := by decide +kernel
+example : (run (fun p => p != 62) exampleLines).calls <+: [33, 62] := by
+  have := callback_positions_prefix clsAny exampleDoc (by decide +kernel) (fun p => p != 62) exampleLines exampleLines_fst
+  rwa [show callPositions clsAny exampleDoc (exampleLines.map Prod.snd) = [33, 62] by decide +kernel] at this
+
+/-- the lines the formula names: `callLine 0` is the `<spectrumList …>` line, `callLine k` for
+`0 < k < number of spectra` is the `<spectrum …>` line of spectrum `k` (for any document) -/
+theorem callback_call_lines (cls : String → Bool) (d : Doc) :
+    (render cls d)[callLine cls d 0]? = some (.opn .spectrumList "") ∧
+    ∀ k, 0 < k → k < d.spectra.length → (render cls d)[callLine cls d k]? = some (.opn .spectrum "") := by
+  constructor
+  · unfold render callLine
+    rw [List.getElem?_append_right (by omega)]
+    simp [renderSpectra]
+  · intro k hk0 hk
+    unfold render callLine
+    rw [List.getElem?_append_right (by omega)]
+    simp only [Nat.ne_of_gt hk0, if_false]
+    have e : (renderHead cls d).length + 1 + (1 + ((d.spectra.take k).map (fun s => (renderSpec cls s).length)).sum)
+        - (renderHead cls d).length = 2 + ((d.spectra.take k).map (fun s => (renderSpec cls s).length)).sum := by omega
+    rw [e]
+    unfold renderSpectra
+    rw [List.append_assoc, List.append_assoc, List.getElem?_append_right (by simp)]
+    simp only [List.length_cons, List.length_nil, Nat.add_sub_cancel_left]
+    exact flatMap_getElem_start (renderSpec cls) (.opn .spectrum "") d.spectra _ k hk
+      (fun s _ => by simp [renderSpec])
+
+example : 0 < 1 ∧ 1 < exampleDoc.spectra.length := by decide
+
+/-- "and therefore extract identical images": the images are a function of the parsed model
+(`imageSizeOf` = `ImzML.image_size`, `ticImageOf` = `extract_tic`, `massImageOf` = `extract_masses`,
+on top of C05's `Pew.Imzml` extraction, with the text→number conversions and the reads of the binary
+file as opaque functions `B`).  For every document of the layout, every such `B`, every list of target
+masses and every width: both parsers succeed, and the image size, the TIC image and the mass-window
+image computed from the fast parser's model are those computed from the XML parser's model.
+(A corollary of `fast_eq_xml`: the models are equal; the content is that "the images" is now a defined
+function of the model.) -/
+theorem fast_xml_same_images (cls : String → Bool) (d : Doc) (h : Layout cls d) (cb : Nat → Bool)
+    (ls : List (Line × Nat)) (hls : ls.map Prod.fst = render cls d)
+    (hcb : ∀ p ∈ (run cb ls).calls, cb p = true)
+    (B : Bin) (masses : List Rat) (w : Pew.Imzml.Width) :
+    ∃ mf mx, fastParse cb ls = .ok mf ∧ xmlView (xmlDoc d) = some mx ∧
+      imageSizeOf B mf = imageSizeOf B mx ∧ ticImageOf B mf = ticImageOf B mx ∧
+      massImageOf B mf masses w = massImageOf B mx masses w := by
+  obtain ⟨m, h1, h2⟩ := fast_eq_xml cls d h cb ls hls hcb
+  exact ⟨m, m, h1, h2, rfl, rfl, rfl⟩
+
+/-- a concrete `B` on the example document: positions and sizes are read as written, the stored TICs are
+1500000 and -3, every array is `[100]` / `[5]` — the image is 2 × 1 with the two TICs -/
+def exampleBin : Bin :=
+  { int := fun s => if s = "2" then 2 else 1, float := fun s => if s = "-3" then -3 else 1500000,
+    read := fun g _ => if g.id = "mzArray" then [100] else [5] }
+
+example : (xmlView (xmlDoc exampleDoc)).map (fun m => (imageSizeOf exampleBin m, ticImageOf exampleBin m))
+    = some ((2, 1), [[some (-3), some 1500000]]) := by decide +kernel
+
 /-- the value class before `fix: accept signed and exponent values in the fast imzML parser`
 (`[\w.]+`) is the reason for the hypothesis on values: with it the example document, whose first TIC
 is `1.500000e+06`, makes the fast parser fail with `float(None)` while the XML parser succeeds -/
@@ -137,6 +279,8 @@ theorem fast_rejects_exponent :
     (xmlView exampleDoc).isSome = true ∧
     (∃ m, fastParse (fun _ => true) ((render clsAny exampleDoc).map (fun l => (l, 1))) = .ok m ∧ xmlView exampleDoc = some m) := by
   refine ⟨by decide +kernel, by decide +kernel, ?_⟩
-  exact fast_eq_xml_no_callback clsAny exampleDoc (by decide +kernel) _ (by simp [List.map_map, Function.comp_def])
+  have := fast_eq_xml_no_callback clsAny exampleDoc (by decide +kernel) _
+    (show ((render clsAny exampleDoc).map (fun l => (l, 1))).map Prod.fst = _ by simp [List.map_map, Function.comp_def])
+  rwa [plain_text_is_decoded_text exampleDoc (by decide +kernel)] at this
 
 end Pew.FastParse
